@@ -120,6 +120,7 @@ def build_odt(seed: int, feature: str | None = None, twin: bool = False):
     rng = random.Random(f"odt:{seed}")
     tk = Tokens()
     exp = Expect("odt")
+    exp.literals = []   # every non-token visible string this writer emits: the rest of the output must hold no letter or digit (C02 'no text that is not in the source')
     exp.unit_mode = "one-or-sections"
     exp.tables_claimed = True
     exp.images_claimed = True
@@ -306,6 +307,7 @@ def build_odp(seed: int, feature: str | None = None, twin: bool = False):
     rng = random.Random(f"odp:{seed}")
     tk = Tokens()
     exp = Expect("odp")
+    exp.literals = []   # every non-token visible string this writer emits: the rest of the output must hold no letter or digit (C02 'no text that is not in the source')
     exp.unit_mode = "exact"
     exp.join_equality = True
     exp.tables_claimed = True
@@ -601,6 +603,7 @@ def build_odg(seed: int, feature: str | None = None, twin: bool = False):
     rng = random.Random(f"odg:{seed}")
     tk = Tokens()
     exp = Expect("odg")
+    exp.literals = []   # every non-token visible string this writer emits: the rest of the output must hold no letter or digit (C02 'no text that is not in the source')
     exp.unit_mode = "exact"
     exp.n_units = 1
     exp.join_equality = True
